@@ -62,7 +62,7 @@ func opMenu(cfg config) []string {
 	for _, m := range p2 {
 		ops = append(ops, "r2:"+m)
 	}
-	ops = append(ops, "pull", "sent", "new:C", "del:A", "del:B", "d1", "d2")
+	ops = append(ops, "pull", "sent", "new:C", "ann:A", "del:A", "del:B", "d1", "d2")
 	return ops
 }
 
